@@ -875,7 +875,7 @@ func (p *Prog) storesToCell(cell *ssa.Alloc) []ssa.Value {
 func returnsOf(f *ssa.Function) []*ssa.Return {
 	var out []*ssa.Return
 	for _, b := range f.Blocks {
-		if len(b.Instrs) == 0 {
+		if len(b.Instrs) == 0 || b == f.Recover {
 			continue
 		}
 		if r, ok := b.Instrs[len(b.Instrs)-1].(*ssa.Return); ok {
